@@ -50,6 +50,9 @@ func StatsFor(property string) *Stats {
 // Case records one evaluated case.  abstract must be JSON-marshalable and must describe the
 // generated case (not the outcome).
 func (s *Stats) Case(nontrivial bool, abstract interface{}, classes ...string) {
+	if os.Getenv("VERIF_CHAIN_CFG") == "1" {
+		classes = append(append([]string{}, classes...), "chain_cfg:bond_denomination_differs_from_the_custom_modules_denomination")
+	}
 	if os.Getenv("VERIF_NODE_OPTS") == "1" {
 		classes = append(append([]string{}, classes...), "node_options:history_on_a_node_started_with_non_default_options")
 	}
